@@ -5,7 +5,7 @@ graph route likewise with the link triple) is equal, row by row, to the step rul
 the iff: a missing conjunct over-merges, an extra one under-merges; the side asked of the neighbour, the canonicalisation
 and the operands of join/availability are the specified ones; the growth loops leave only on Terminal and walk both
 directions from every seed; palindrome definition and the Exts query lemmas (one bit layout for all queries)."""
-from .. import dt_compress, dt_tables, dt_graph, lemmas
+from .. import dt_compress, dt_tables, dt_graph, lemmas, dt_filter
 from . import common
 
 ASSUMPTIONS = ["rows where the neighbour reports no incoming extension are outside the property's precondition (symmetric extensions)"]
@@ -27,3 +27,6 @@ def run(F, rep):
     rep.run(dt_graph.censor_tables, F, rep, "C02.4")
     rep.run(common.run_kmer_lemmas, F, rep, {"canon"})
     rep.run(lemmas.exts_lemmas, F, rep)
+    # "the sole extension on both facing sides" is about the extensions observed in the reads: both summarizers must hand every
+    # observation's extensions to the table (a dropped one hides a branch inside a node)
+    rep.run(dt_filter.summarizer_tables, F, rep, "C02.5")
